@@ -180,9 +180,24 @@ def _exit_rule(ctx, facts, fid):
         """the pruning comparison is made on the item's current point (a race value), not on something else of the item"""
         v = _pruned_on(cond)
         return v is None or not RV or v in RV
+    # a hand-stepped `while j < n { ..; j += 1 }` over the items / the deferral buffer is the `for j in 0..n` it replaces
+    # (rulelib.counted_loop): its guard is the exhaustion of the range, and the guard is not a pruning condition of what it encloses
+    from ..rulelib import counted_loop
+    counted, own_guard = {}, set()
+    if not fid.endswith("hash_item"):
+        for loop in [n for n in t.nodes if n["k"] == "Loop" and n.get("src") == "While"]:
+            cl_ = counted_loop(fn, loop)
+            if cl_ is not None and cl_.get("guard") is not None:
+                counted[id(loop)] = cl_
+                own_guard |= {tuple(x) for x in nf.atoms(cl_["guard"], True)}
+
+    def _own(conds_):
+        return [c_ for c_ in conds_ if tuple(c_) not in own_guard]
     # (a) exits of every user loop
     for loop in [n for n in t.nodes if n["k"] == "Loop"]:
         for (kind, node) in loop_exits(fn, loop):
+            if kind == "guard" and id(loop) in counted:
+                continue
             if kind == "iterator-exhausted":
                 # loops over the input or over the deferral buffer end with their iterator; a race loop must not
                 if fid.endswith("hash_item"):
@@ -193,7 +208,7 @@ def _exit_rule(ctx, facts, fid):
             if kind in ("return", "try"):
                 ctx.violation("EXIT", fid, "%s inside a race loop" % kind, where, "a race loop is left by `%s`, which is not a comparison with the tracker maximum" % kind)
                 continue
-            conds = nf.all_conditions(t, node, stop=loop)
+            conds = _own(nf.all_conditions(t, node, stop=loop))
             classes = [_cond_class(fn, c) for c in conds]
             n_inst += 1
             # the innermost condition decides the exit
@@ -205,7 +220,7 @@ def _exit_rule(ctx, facts, fid):
                 else:
                     ctx.violation("EXIT", fid, "loop guard", where, "the loop condition is not `x < get_max_value()`: at its exit holds %s" % (conds[:1],))
             else:
-                if loop["src"] == "ForLoop":
+                if loop["src"] == "ForLoop" or id(loop) in counted:
                     # a `for` of a race function runs over the items (the input, or the deferral buffer): leaving it early drops
                     # the items not yet visited, whatever the reason — the item at hand may be abandoned with `continue` only
                     ctx.violation("EXIT", fid, "break out of the loop over items", where,
@@ -228,7 +243,7 @@ def _exit_rule(ctx, facts, fid):
         for lp in loops_:
             if node["k"] == "Continue" and node.get("target") == lp["id"]:
                 tgt = lp
-        conds = nf.all_conditions(t, node, stop=tgt)
+        conds = _own(nf.all_conditions(t, node, stop=tgt))
         n_inst += 1
         inner = _cond_class(fn, conds[0]) if conds else None
         if inner == "MAX(exit)" and not sound_bound(conds[0]):
@@ -253,7 +268,7 @@ def _exit_rule(ctx, facts, fid):
         # conditions up to the enclosing per-item loop body
         loops = t.enclosing_loops(n)
         stop = loops[0] if loops else None
-        for it in nf.all_conditions(t, n, stop=stop):
+        for it in _own(nf.all_conditions(t, n, stop=stop)):
             n_inst += 1
             c = _cond_class(fn, it)
             is_draw = n["k"] == "MethodCall" and n["name"] == "sample"
